@@ -33,6 +33,8 @@ fn main() {
         ("replay", "numfmt") => props::numfmt::replay(&args),
         ("drive", "numfmt") => props::numfmt::drive(&args),
         ("replay", "numfmt_builtin") => props::numfmt::builtin_files(&args),
+        ("replay", "numfmt_xlsb") => props::numfmt::replay_xlsb(&args),
+        ("replay", "xlsbstyles") => props::numfmt::replay_xlsb_styles(&args),
         ("drive", "dates") => props::dates::drive(&args),
         ("replay", "xlsx_tables") => props::xlsx_tables::replay(&args),
         ("drive", "xlsx_tables") => props::xlsx_tables::drive(&args),
